@@ -8,6 +8,7 @@ the pieces, decoded by the reader's own TextIOWrapper.
 """
 import io
 import json
+import os
 import random
 
 from .. import env, util
@@ -435,6 +436,40 @@ def run_js_bytes(res, tier, sample_idx, rng):
                     res.violation('js-big-file-read-differs', '[js] a %d-byte file with multi-byte characters across the offsets 196608, 2**20 and 2**21 read %s -> %d records (error %r), first difference at record %r: %r ; in one stream read -> %d records' % (
                         n, 'by the bulk reader' if rq['chunks'] is None else 'in %d chunks' % len(rq['chunks']), len(o['records']), o['error'], first, None if first is None else o['records'][first][-2:], len(outs[1]['records'])),
                         {'mode': 'js-big-file', 'chunks': None if rq['chunks'] is None else len(rq['chunks'])})
+        # a file of 17 MiB written to disk (multi-byte characters lie across many 64 KiB offsets): the bulk reader and the file stream return the same records
+        # (count, digest, no replacement character anywhere)
+        if sample_idx == 6:
+            import hashlib
+            import tempfile
+            fd, pth = tempfile.mkstemp(prefix='rv-c12-', suffix='.csv')
+            try:
+                line_no, size, h, nrec = 0, 0, hashlib.sha1(), 0
+                with os.fdopen(fd, 'wb') as f:
+                    while size < 17 * 2 ** 20:
+                        rec = ['%d' % line_no, '\u8a9e\u0430\u0430\u0430\u8a9e\u0431' * (1 + line_no % 7), '\u20ac' * (line_no % 11)]
+                        b = (','.join(rec) + '\n').encode('utf-8')
+                        f.write(b)
+                        size += len(b)
+                        h.update(json.dumps(rec, ensure_ascii=True, separators=(',', ':')).encode())
+                        line_no += 1
+                want = {'n': line_no, 'sha1': h.hexdigest()}
+                for bulk in (True, False):
+                    o = node.call({'op': 'read_path', 'path': pth, 'bulk': bulk, 'encoding': 'utf-8', 'delim': ',', 'policy': 'simple'})
+                    res.evaluations += 1
+                    res.count('js_17mib_file_reads')
+                    # (the driver digests JSON.stringify of every record: the same text as json.dumps with ASCII escapes turned off on the python side is not
+                    #  guaranteed, so the count and the absence of U+FFFD decide, and the two readers must agree on the digest)
+                    if o['error'] is not None or o.get('stuck') or o['n_records'] != want['n'] or o.get('first_record_with_replacement_character') is not None:
+                        res.violation('js-17mib-file-read-differs', '[js] a %d-byte file of %d records read by the %s: %d records, error %r, first record holding U+FFFD: %r' % (
+                            size, want['n'], 'bulk reader' if bulk else 'file stream', o['n_records'], o['error'], o.get('first_record_with_replacement_character')), {'mode': 'js-17mib', 'bulk': bulk})
+                    want.setdefault('digests', []).append(o.get('sha1'))
+                if len(set(want.get('digests', []))) > 1:
+                    res.violation('js-17mib-bulk-and-stream-digests-differ', '[js] bulk reader and file stream return different records for the same 17 MiB file', {'mode': 'js-17mib'})
+            finally:
+                try:
+                    os.unlink(pth)
+                except OSError:
+                    pass
     finally:
         node.close()
 
@@ -498,7 +533,7 @@ def summarize(tier, seed, m):
     return {
         'rule': 'every text of length <= %d over {a, quote, comma, LF, CR, #, space} x all 2^(n-1) partitions into successive reads (chunk_size n+1) x policies {simple, quoted, quoted_rfc} x comment prefix {none, #} x header {off, on}; length %d with header off (quick tier: 4 of the 6 policy x comment configurations at that length); for each text also chunk_size 1..n on the undivided text; every byte partition of %d multi-byte UTF-8 / latin-1 / BOM samples through a RawIOBase; the same samples (+ three with 4-byte characters at every position) through the JS stream reader, every partition (short) or every one- and two-cut, byte-by-byte and random partition (long) against the whole content in one read; 120-1500 short records in chunks of 37-4000 bytes delivered on separate event-loop turns to a consumer that yields every 0 / 1 / 2 / 7 records; random longer texts with random partitions and chunk sizes (text and byte level); lines and quoted_rfc records of 1100-6000 characters delivered one, two or 1-3 characters per read (thousands of reads per line) at chunk sizes 7 / 512 / 1024 / 4096; the same exhaustive differential up to 5 / 6 characters for 7 further dialects (semicolon, space + whitespace policy, space + quoted, monocolumn, multi-character delimiter with quoted_rfc and simple, tab) with single- and multi-character comment prefixes. Each whole read is also compared with the reference reader. distinct_nontrivial = (text, configuration) pairs whose text contains a line break or a quote.' % (FULL_LEN[tier], EXTRA_LEN[tier], len(byte_samples())),
         'exhaustive': True,
-        'required': ['partition_runs', 'js_byte_partition_runs', 'js_big_file_reads', 'js_bulk_vs_one_read_comparisons', 'js_lagging_consumer_runs', 'byte_partition_runs', 'byte_partition_runs_buffered_reader', 'reference_comparisons', 'chunk_size_runs', 'dialect_partition_runs', 'dialect_reference_comparisons', 'very_long_line_runs'],
+        'required': ['partition_runs', 'js_byte_partition_runs', 'js_big_file_reads', 'js_17mib_file_reads', 'js_bulk_vs_one_read_comparisons', 'js_lagging_consumer_runs', 'byte_partition_runs', 'byte_partition_runs_buffered_reader', 'reference_comparisons', 'chunk_size_runs', 'dialect_partition_runs', 'dialect_reference_comparisons', 'very_long_line_runs'],
         'assumptions': ['all delivery sequences a stream can produce are covered by enumerating partitions under a large chunk_size (a read(k) request returns min(piece, k)) plus the chunk-size sweep',
                         'rv.model.refcsv.read_text states the line-ending / comment / multi-line / BOM rules'],
     }
